@@ -52,6 +52,18 @@ def run(tier='quick', seed=0, only=None, verbose=False):
         for vec in (True, False):
             jobs.append(dict(key=f"{key}|vec={vec}", spec=spec, vectorize=vec, backend='default', cvc5=(tier == 'thorough')))
     tvjobs.run_tv_jobs(rep, jobs, verbose=verbose)
+    # three-level circuits whose mid-level and leaf circuits are ONE template object under several keys, one override on
+    # one branch (history harness of C07): the function must be the model of the spec with exactly that override
+    from . import c07
+    hj = []
+    for i in range(2 if tier == 'quick' else 8):
+        for vec in (True, False):
+            hj.append(dict(key=f"samesub3:{seed}:{i}:shared={bool(i % 2)}|vec={vec}", seed=seed * 1000 + 350 + i,
+                           shared=bool(i % 2), hier=2, length=1 + i % 2, vectorize=vec, same_sub=True,
+                           spec=c07.base_spec(bool(i % 2), 2, same_sub=True)[0]))
+    if only:
+        hj = [j for j in hj if only in j['key']]
+    tvjobs.run_tv_jobs(rep, hj, verbose=verbose, fn=c07.job_fn)
     return rep.finish(rule='programs = generated ModelSpecs (families F1 chains/fan-in, F2 edge multisets incl. '
                            'parallel edges, F2b mixed node types, F3 hierarchy, F4 adversarial identifiers, FE edge '
                            'templates, FEQ equal values) x vectorize on/off; each compiled by the real pipeline; one '
